@@ -22,6 +22,7 @@ import (
 	"storj.io/drpc/drpcmetadata"
 	"storj.io/drpc/drpcwire"
 
+	"verif/checks/s11"
 	"verif/checks/s14"
 	"verif/harness/enc"
 	"verif/seq"
@@ -377,6 +378,17 @@ func families(tier string) []seq.Family {
 			enumBytes(ctx, small, nRed, decodeCase)
 			ctx.Class("returns")
 			ctx.Sample("0a ff ff ff ff 0f 0a")
+		}, Replay: hexReplay(decodeCase)},
+		{Name: "metadata.Decode/hostile-length-fields", Run: func(ctx *seq.Ctx) {
+			s11.HostileLengthInputs(func(b []byte) bool {
+				ctx.Count(1, 1, 0)
+				if m := decodeCase(b); m != "" {
+					return !ctx.Fail(m, map[string]string{"Hex": seq.Hex(b)})
+				}
+				return true
+			})
+			ctx.Class("returns")
+			ctx.Sample("0a 80 80 80 80 80 80 80 80 80 01")
 		}, Replay: hexReplay(decodeCase)},
 		{Name: fmt.Sprintf("http-metadata-headers<=%d", nHdr), Run: func(ctx *seq.Ctx) {
 			var all []string
